@@ -371,7 +371,9 @@ def export_case(draw):
     return {
         "sr": sr, "items": items, "fmt": draw(st.sampled_from(["segment", "bbox", "sequence", "annotation_bbox", "annotation_seq"])),
         "cast": draw(st.sampled_from([None, True, False])), "ignore_errors": draw(st.sampled_from([None, True, False])),
-        "raise_on_time": draw(st.sampled_from([None, True, False])), "value_only": draw(st.sampled_from([None, True])), "index": draw(st.sampled_from([None, 0, -1, 5])),
+        "raise_on_time": draw(st.sampled_from([None, True, False])), "value_only": draw(st.sampled_from([None, True])), "index": draw(st.sampled_from([None, 0, -1, 5, -7])),
+        "select_by_key": draw(st.sampled_from([None, None, None, "species", "absent"])), "separator": draw(st.sampled_from([None, None, ";", ""])),
+        "label_fn": draw(st.sampled_from([False, False, False, True])), "empty_label": draw(st.sampled_from([None, None, "NONE"])),
     }
 
 
@@ -394,7 +396,13 @@ def check_export(spec, ctx):
         lab_kw["value_only"] = spec["value_only"]
     if spec["index"] is not None:
         lab_kw["index"] = spec["index"]
-    t2l_spec = {"seq_label_fn": False, "select_by_key": None, "index": spec["index"], "separator": None, "empty_label": None, "value_only": spec["value_only"], "label_fn": False, "label_mapping": None}
+    for k in ("select_by_key", "separator", "empty_label"):
+        if spec.get(k) is not None:
+            lab_kw[k] = spec[k]
+    if spec.get("label_fn"):
+        lab_kw["label_fn"] = lambda t: "F(" + t.value + ")"
+    t2l_spec = {"seq_label_fn": False, "select_by_key": spec.get("select_by_key"), "index": spec["index"], "separator": spec.get("separator"), "empty_label": spec.get("empty_label"),
+                "value_only": spec["value_only"], "label_fn": bool(spec.get("label_fn")), "label_mapping": None}
     cast_default = True
     cast = cast_default if spec["cast"] is None else spec["cast"]
     rot_default = True if fmt == "bbox" or fmt == "annotation_bbox" else None
@@ -421,7 +429,7 @@ def check_export(spec, ctx):
         return ("ok", (b[0], b[2], label))
 
     exps = [expected(a) for a in anns]
-    nondefault = sum(1 for k in ("cast", "ignore_errors", "raise_on_time", "value_only", "index") if spec[k] is not None)
+    nondefault = sum(1 for k in ("cast", "ignore_errors", "raise_on_time", "value_only", "index", "select_by_key", "separator", "empty_label") if spec.get(k) is not None) + int(bool(spec.get("label_fn")))
     ctx.case(spec, nontrivial=nondefault >= 2, labels=[fmt, f"n={len(anns)}", f"opts={min(nondefault, 4)}", "has_error" if any(e[0] != "ok" for e in exps) else "all_ok"])
 
     def check_segment(seg, ann, e):
